@@ -6,6 +6,7 @@ CONSTANTS
   Classes <- AllClasses
   MaxTamper = 2
   MaxEnv = 8
+  Total = 5
   Urgent = TRUE
   Guarded = TRUE
 VIEW view
